@@ -1,12 +1,12 @@
 """Shadowed container bases: exact case splits for symbolic index / key (no hashing)."""
 import z3
 
-from .core import CTX, SBool, branch, is_sym, pin, tm, iv, _pin_int
+from .core import CTX, SBool, branch, is_sym, f_is_sym, pin, tm, iv, _pin_int
 from .strs import s_is_sym, b_is_sym, sraw, eq_term, pin_str, pin_bytes
 
 
 def any_sym(k):
-    return is_sym(k) or s_is_sym(k) or b_is_sym(k) or getattr(k, "_ft", None) is not None or isinstance(k, SBool)
+    return is_sym(k) or s_is_sym(k) or b_is_sym(k) or f_is_sym(k) or isinstance(k, SBool)
 
 
 class SList(list):
@@ -67,9 +67,9 @@ def _key_eq(k, key):
         return branch(tm(k) == tm(key), iv(k) == iv(key))
     if isinstance(k, float) or isinstance(key, float):
         # float keys: pin (not a CEL key type)
-        if getattr(k, "_ft", None) is not None:
+        if f_is_sym(k):
             k._pin("dict key float")
-        if getattr(key, "_ft", None) is not None:
+        if f_is_sym(key):
             key._pin("dict key float")
         if is_sym(k):
             _pin_int(k, "dict key float")
